@@ -99,11 +99,19 @@ def dumpParsed (p : Parsed Float) : String :=
   "} real={" ++ reals ++ "} series={" ++ series ++ "} text=" ++ dumpPMap p.text ++
   " texts={" ++ texts ++ "} given=" ++ dumpPMap p.given
 
-partial def dumpOp (o : Op Float) : String :=
+/-- structure only: what every operator has, whatever its constructor derives -/
+def dumpSkel (p : Parsed Float) : String :=
+  let bools := ",".intercalate (((sortBy id p.boolean).filter fun k =>
+    k == S "inv" || k == S "omit_fwd" || k == S "omit_inv").map escape)
+  "name=" ++ escape p.name ++ " bool={" ++ bools ++ "} given=" ++ dumpPMap p.given
+
+partial def dumpOpWith (full : Bool) (o : Op Float) : String :=
   let n := o.node
   "(" ++ (if n.inverted then "inverted " else "") ++ (if n.invertible then "invertible " else "") ++
-  "def=" ++ escape n.definition ++ " " ++ dumpParsed n.params ++
-  " steps=[" ++ " ".intercalate (o.steps.map dumpOp) ++ "])"
+  "def=" ++ escape n.definition ++ " " ++ (if full then dumpParsed n.params else dumpSkel n.params) ++
+  " steps=[" ++ " ".intercalate (o.steps.map (dumpOpWith full)) ++ "])"
+
+def dumpOp (o : Op Float) : String := dumpOpWith true o
 
 end Wire
 end Geodesy
